@@ -203,6 +203,21 @@ func genC08(seed int64, tier string) *Scenario {
 			}
 		}
 	}
+	if r.Intn(8) == 0 && !faulted {
+		// recipe: a file without any diagnostics is open with clean unsaved edits when the world
+		// rewrites it on disk (another tool, a checkout) and the watcher reports it: the buffer's
+		// file must go on showing the buffer's syntax errors (none) / the saved non-syntax diagnostics
+		n := names[r.Intn(len(names))]
+		if !open[n] {
+			tag := strings.NewReplacer("/", "_", ".", "_").Replace(n)
+			sc.Ops = append(sc.Ops,
+				Op{Kind: "fswrite", Path: n, Data: Bytes(fmt.Sprintf(c08Variants[0], tag))}, Op{Kind: "deliver"},
+				Op{Kind: "open", Path: n},
+				Op{Kind: "change", Path: n, Edits: []Edit{{Start: Pos{0, 0}, End: Pos{0, 0}, Text: "print(1)\n"}}},
+				Op{Kind: "fswrite", Path: n, Data: Bytes(c08Content(r, n))}, Op{Kind: "deliver"}, Op{Kind: "check"})
+			open[n], exists[n] = true, true
+		}
+	}
 	// make the end clean: stop faults, deliver everything, save or close dirty buffers, and (after
 	// faults) let the world touch every file once more, which is what the next save would do.
 	sc.Ops = append(sc.Ops, Op{Kind: "clearfaults"}, Op{Kind: "deliver"})
@@ -261,14 +276,14 @@ func c08Battery(open []File, disk []File) []Op {
 }
 
 type c08Checkpoint struct {
-	at      int
-	final   bool
-	disk    []File
-	open    []File
-	battery []Op
-	view    map[string][]string
-	answers []*Answer
-	dirty   string // dirty-point check: the single dirty document
+	at       int
+	final    bool
+	disk     []File
+	open     []File
+	battery  []Op
+	view     map[string][]string
+	answers  []*Answer
+	dirty    string // dirty-point check: the single dirty document
 	reverted map[string]bool
 }
 
@@ -320,9 +335,16 @@ func checkC08(t *testing.T, sc *Scenario) *Verdict {
 			}
 			if len(e.External) > 0 {
 				// the world changed the disk file under an open buffer: buffer and disk differ without
-				// any unsaved *edit*; neither clause of the property speaks about that state
-				e.probe("c08.checkpoint-skipped-external-divergence")
-				return ""
+				// any unsaved *edit*; neither clause of the property speaks about that state — unless
+				// the buffer does have unsaved edits of its own (and is the only such document): then
+				// the second clause applies whatever the world wrote (the saved state the server knows
+				// is the disk content the delivered events reported)
+				only := len(e.External) == 1 && len(dirty) == 1 && e.External[dirty[0]] && e.ClientEdited(dirty[0])
+				if !only {
+					e.probe("c08.checkpoint-skipped-external-divergence")
+					return ""
+				}
+				e.probe("c08.dirty-checkpoint-after-world-write")
 			}
 			cp := &c08Checkpoint{at: i, final: op.Arg == "final", disk: DiskFiles(), open: e.OpenDocs(), reverted: map[string]bool{}}
 			for p, r := range e.Reverted {
@@ -496,7 +518,6 @@ func c08DirtyCheck(t *testing.T, v *Verdict, cp *c08Checkpoint) string {
 	return ""
 }
 
-
 func dedupe(xs []string) []string {
 	seen := map[string]bool{}
 	var out []string
@@ -509,7 +530,6 @@ func dedupe(xs []string) []string {
 	sort.Strings(out)
 	return out
 }
-
 
 var memberDefRe = regexp.MustCompile(`(?m)^function\s+([A-Za-z_][A-Za-z0-9_]*)[:.]`)
 
